@@ -242,6 +242,10 @@ func (n *Node) Eval(r *Row) TV {
 		return b2t(cmp(v, n.Val) < 0)
 	case ">":
 		return b2t(cmp(v, n.Val) > 0)
+	case "<=":
+		return b2t(cmp(v, n.Val) <= 0)
+	case ">=":
+		return b2t(cmp(v, n.Val) >= 0)
 	case "LIKE":
 		return b2t(Like(v.(string), n.Val.(string)))
 	case "IN":
@@ -352,9 +356,9 @@ func RandAtom(r *core.Rand) *Node {
 		case 1:
 			return &Node{Kind: Atom, Col: col, Cmp: "<>", Val: int64(r.Intn(hi))}
 		case 2:
-			return &Node{Kind: Atom, Col: col, Cmp: "<", Val: int64(r.Intn(hi))}
+			return &Node{Kind: Atom, Col: col, Cmp: core.Pick(r, []string{"<", "<="}), Val: int64(r.Intn(hi))}
 		case 3:
-			return &Node{Kind: Atom, Col: col, Cmp: ">", Val: int64(r.Intn(hi))}
+			return &Node{Kind: Atom, Col: col, Cmp: core.Pick(r, []string{">", ">="}), Val: int64(r.Intn(hi))}
 		}
 		n := r.Range(1, 3)
 		xs := make([]int64, n)
@@ -369,7 +373,7 @@ func RandAtom(r *core.Rand) *Node {
 	case 1:
 		return &Node{Kind: Atom, Col: col, Cmp: "<>", Val: core.Pick(r, StrPool)}
 	case 2:
-		return &Node{Kind: Atom, Col: col, Cmp: core.Pick(r, []string{"<", ">"}), Val: core.Pick(r, StrPool)}
+		return &Node{Kind: Atom, Col: col, Cmp: core.Pick(r, []string{"<", ">", "<=", ">="}), Val: core.Pick(r, StrPool)}
 	case 3:
 		return &Node{Kind: Atom, Col: col, Cmp: "LIKE", Val: core.Pick(r, likePats)}
 	}
